@@ -17,6 +17,7 @@ type zzChunkReader struct {
 	failAt  int   // -1: never; otherwise fail with ioErr once pos >= failAt
 	ioErr   error
 	reads   int
+	zeros   int
 }
 
 var zzIOErr = errors.New("disk on fire")
@@ -38,9 +39,13 @@ func (r *zzChunkReader) Read(p []byte) (int, error) {
 		n = len(p)
 	}
 	if r.chunked {
-		n = zz.NondetInt("chunk", 0, n)
-		if n == 0 && r.reads > 64 {
-			zz.Assume(false) // a reader returning (0, nil) forever is outside every contract
+		lo := 1
+		if r.zeros < 2 {
+			lo = 0 // at most two empty reads per stream: (0, nil) forever is outside every contract
+		}
+		n = zz.NondetInt("chunk", lo, n)
+		if n == 0 {
+			r.zeros++
 		}
 	}
 	copy(p, r.data[r.pos:r.pos+n])
